@@ -60,6 +60,10 @@ type Case struct {
 	// default Ask timeouts (ms): of the system (0 = one hour, i.e. never within a case) and of single actors
 	SysDefault   int            `json:"sysDefault,omitempty"`
 	ActorDefault map[string]int `json:"actorDefault,omitempty"`
+	// Respawn: the killed actor is spawned again under the same name at the instant of its death (only actors that are
+	// askers and nothing else in the case): its later asks are issued by the new incarnation, while replies to the old
+	// incarnation's requests are still on their way
+	Respawn map[string]bool `json:"respawn,omitempty"`
 }
 
 func (c Case) JSON() string { b, _ := json.Marshal(c); return string(b) }
@@ -166,6 +170,21 @@ func genCase(t *rapid.T) Case {
 			v := rapid.SampledFrom(c.Actors).Draw(t, "victim")
 			c.Kills[v] = rapid.IntRange(0, 6).Draw(t, "killAt")
 			c.How[v] = rapid.SampledFrom(hows).Draw(t, "how")
+			askerOnly := false
+			for _, a := range c.Asks {
+				askerOnly = askerOnly || a.Asker == v
+			}
+			for _, a := range c.Asks {
+				if a.Target == v || contains(a.Pipe, v) || contains(a.Pipe2, v) {
+					askerOnly = false
+				}
+			}
+			if askerOnly && rapid.Bool().Draw(t, "respawn") {
+				if c.Respawn == nil {
+					c.Respawn = map[string]bool{}
+				}
+				c.Respawn[v] = true
+			}
 		}
 	}
 	return c
@@ -298,6 +317,12 @@ func run(t *testing.T, c Case) (v *verdict, nontrivial bool, labels []string) {
 							w.Tell(n, "", 0, []world.Step{{Op: "panic"}})
 						default:
 							w.Kill(n, "", false)
+						}
+						if c.Respawn[n] {
+							vt.Settle()
+							if _, err := w.Spawn(world.Spec{Name: n, AskTimeout: int64(c.ActorDefault[n]) * ms}); err == nil {
+								lab["asker-respawned-under-its-name"] = true
+							}
 						}
 					}
 				}
@@ -468,8 +493,8 @@ func run(t *testing.T, c Case) (v *verdict, nontrivial bool, labels []string) {
 			if !a.CtxPipe {
 				continue
 			}
-			if kt, dead := killedAt[a.Asker]; dead && kt < a.At {
-				continue // the asker was dead before it could call PipeTo
+			if kt, dead := killedAt[a.Asker]; dead && kt < a.At && !c.Respawn[a.Asker] {
+				continue // the asker was dead before it could call PipeTo (and nobody took its name)
 			}
 			expectCtx++
 			lab["ctx-pipe"] = true
